@@ -447,7 +447,10 @@ void tickit_term_set_size(TickitTerm *tt, int lines, int cols)
     tt->cols  = cols;
 
     TickitResizeEventInfo info = { .lines = lines, .cols = cols };
+    /* a handler may drop the last reference to the terminal */
+    tickit_term_ref(tt);
     run_events(tt, TICKIT_TERM_ON_RESIZE, &info);
+    tickit_term_unref(tt);
   }
 }
 
@@ -745,12 +748,16 @@ static void got_key(TickitTerm *tt, TermKey *tk, TermKeyKey *key)
 
 void tickit_term_emit_key(TickitTerm *tt, TickitKeyEventInfo *info)
 {
+  tickit_term_ref(tt);
   run_events_whilefalse(tt, TICKIT_TERM_ON_KEY, info);
+  tickit_term_unref(tt);
 }
 
 void tickit_term_emit_mouse(TickitTerm *tt, TickitMouseEventInfo *info)
 {
+  tickit_term_ref(tt);
   run_events_whilefalse(tt, TICKIT_TERM_ON_MOUSE, info);
+  tickit_term_unref(tt);
 }
 
 static void get_keys(TickitTerm *tt, TermKey *tk)
@@ -782,6 +789,9 @@ static void get_keys(TickitTerm *tt, TermKey *tk)
 
 void tickit_term_input_push_bytes(TickitTerm *tt, const char *bytes, size_t len)
 {
+  /* key and mouse handlers may drop the last reference to the terminal */
+  tickit_term_ref(tt);
+
   check_resize(tt);
 
   TermKey *tk = get_termkey(tt);
@@ -800,16 +810,22 @@ void tickit_term_input_push_bytes(TickitTerm *tt, const char *bytes, size_t len)
     if(!len || !pushed)
       break;
   }
+
+  tickit_term_unref(tt);
 }
 
 void tickit_term_input_readable(TickitTerm *tt)
 {
+  tickit_term_ref(tt);
+
   check_resize(tt);
 
   TermKey *tk = get_termkey(tt);
   termkey_advisereadable(tk);
 
   get_keys(tt, tk);
+
+  tickit_term_unref(tt);
 }
 
 static int get_timeout(TickitTerm *tt)
@@ -851,15 +867,19 @@ static void timedout(TickitTerm *tt)
 
 int tickit_term_input_check_timeout_msec(TickitTerm *tt)
 {
+  tickit_term_ref(tt);
+
   check_resize(tt);
 
   int msec = get_timeout(tt);
 
-  if(msec != 0)
-    return msec;
+  if(msec == 0) {
+    timedout(tt);
+    msec = -1;
+  }
 
-  timedout(tt);
-  return -1;
+  tickit_term_unref(tt);
+  return msec;
 }
 
 void tickit_term_input_wait_msec(TickitTerm *tt, long msec)
@@ -885,6 +905,8 @@ void tickit_term_input_wait_msec(TickitTerm *tt, long msec)
   if (fd < 0 || fd >= FD_SETSIZE)
     return;
 
+  tickit_term_ref(tt);
+
   FD_SET(fd, &readfds);
   int ret = select(fd + 1, &readfds, NULL, NULL, msec > -1 ? &timeout : NULL);
 
@@ -896,6 +918,8 @@ void tickit_term_input_wait_msec(TickitTerm *tt, long msec)
   check_resize(tt);
 
   get_keys(tt, tk);
+
+  tickit_term_unref(tt);
 }
 
 void tickit_term_input_wait_tv(TickitTerm *tt, const struct timeval *timeout)
